@@ -45,7 +45,10 @@ PROPS = {
                 assumptions=["gas maps never spell one field in two different cases (mapstructure would depend on map order)"]),
     "C17": dict(profiles=[P("faults", 3000, 60000)], fields=["status", "deps"], strict=True,
                 assumptions=["storage reads and the pause lookup are fail-soft by interface design (excluded by the property)"]),
-    "C18": dict(profiles=[P("activation", 4000, 40000)], fields=["status"], strict=True),
+    # registry binding is behavioural: every name must price and behave as the function of that name right after the
+    # factory built the container (before any schedule change) -> the gas profile (distinct prime costs) runs here too
+    "C18": dict(profiles=[P("activation", 4000, 40000), P("gas", 2500, 40000), P("supply", 1000, 10000)],
+                fields=["status", "gas", "diff"], oracle_props=["C18", "C16"]),
     "C19": dict(profiles=[], fields=["status"],
                 assumptions=["a data race is an event of the Go memory model no Lean model exhibits (partial): the lock discipline is decided in Lean on regenerated lock facts, races are searched with -race stress"]),
     "C20": dict(profiles=[P("helpers", 8000, 300000)], fields=["status"], strict=True),
